@@ -5,4 +5,4 @@ declare -A REL=( [C01]="C05 C06 C07" [C02]="C07 C12 C13" [C03]="C07 C11" [C04]="
 slot=$1; b=$2; v=$3; shift 3; id=C${b#B}
 [ -d /tmp/mut/iso$slot/repo ] || /verif/tools/iso.sh setup $slot >/dev/null 2>&1
 out=$(/verif/tools/iso.sh run $slot /tmp/mut/$b.out/$v/patch.diff $id ${REL[$id]} "$@" 2>&1)
-( flock 9; echo "== $b/$v"; echo "$out" ) 9>/tmp/mut/benign.lock >> /tmp/mut/benign_results.txt
+( flock 9; echo "== $b/$v"; echo "$out" ) 9>/tmp/mut/benign.lock >> ${BENIGN_OUT:-/tmp/mut/benign_results.txt}
